@@ -28,6 +28,14 @@ def jobs(tier):
     J.append(conc("1,0,0,0", workers=16, hmap=2, init=2, enum=1, nenum=2, nops=2, **TWO))
     if not q:
         J.append(conc("2,0,0,0", workers=16, hmap=0, enum=1, nenum=2, nops=2, **TWO))
+    # deferred reclamation (as with call_rcu): a thread goes on with its next operation while readers may still hold the removed node
+    if not q:
+        J.append(conc("2,0,0,0", workers=16, hmap=0, init=1, enum=1, nenum=2, nops=2, reclaim=2, **TWO))
+    else:
+        J.append(conc("1,0,0,0", workers=16, hmap=0, init=1, enum=2, nenum=2, nops=2, reclaim=2, **TWO))
+    J.append(conc("2,0,0,0", hmap=0, reclaim=2, prog0=prog((K_DEL, 0), (K_ADD, 0), (K_DEL, 0)), prog1=prog((K_WALKK, 0), (K_WALKALL, 0)), **TWO))
+    J.append(conc("2,0,0,0", hmap=2, init=2, reclaim=2, prog0=prog((K_REPL, 0), (K_DEL, 0), (K_ADD, 0)), prog1=prog((K_LOOKUP, 0), (K_WALKALL, 0)),
+                  **TWO))
     # allocators
     for mm in (1, 2, 3):
         J.append(conc("2,0,0,0", hmap=2, init=2, mm=mm, enum=1, nenum=2, nops=1, **TWO))
@@ -44,7 +52,7 @@ def jobs(tier):
     # partitioned grow with pthread_create failing for one helper: the leftover partition must still be populated
     J.append(conc("1,0,1,0", workers=16, hmap=1, init=1, min_partition_order=0, pthread_create_eagain=1, prog0=prog((K_RESIZE, 4)),
                   prog1=prog((K_LOOKUP, 1), (K_WALKALL, 0)), **TWO))
-    J.append(conc("1,0,1,0", workers=16, hmap=1, init=2, min_partition_order=0, pthread_create_eagain=1, prog0=prog((K_RESIZE, 8), (K_RESIZE, 2)),
+    J.append(conc("0,0,1,0,0" if q else "1,0,1,0,0", workers=16, hmap=1, init=2, min_partition_order=0, pthread_create_eagain=1, prog0=prog((K_RESIZE, 8), (K_RESIZE, 2)),
                   prog1=prog((K_LOOKUP, 1), (K_LOOKUP, 0)), final_destroy=1, **TWO))
     # two operations against a resize
     J.append(conc("1,0,0,0" if q else "2,0,0,0", workers=16, hmap=2, init=2, enum=1, enum2=4, nenum=2, nops=1,
